@@ -1,3 +1,439 @@
 package main
 
-func cmdCheck(args []string) int { return 2 }
+// Property checks: select obligations per property, discharge them, apply the
+// known-findings file, write evidence and replay files, print VIOLATION lines.
+
+import (
+	"encoding/json"
+	"flag"
+	"fmt"
+	"os"
+	"path/filepath"
+	"regexp"
+	"runtime"
+	"sort"
+	"strconv"
+	"strings"
+	"time"
+)
+
+type FuncCheck struct {
+	Fn      string            // function under contract
+	Layer   string            // obligation name prefix
+	Include []string          // regexps on obligation names (empty: all)
+	Exclude []string          // regexps on obligation names
+	Opts    map[string]string // executor options (casts=on, extent=on, bind=...)
+	Goarch  string            // load the package for another GOARCH (node16_other.go)
+}
+
+type PropDef struct {
+	ID          string
+	Funcs       []FuncCheck
+	Asm         bool // include the amd64 assembly obligations (node16)
+	Trusted     []string
+	Assumptions []string
+	Floor       int // vacuity: minimal number of obligations
+	DesignRef   string
+}
+
+type KnownFinding struct {
+	Property   string `json:"property"`
+	Obligation string `json:"obligation"` // regexp on the obligation name
+	What       string `json:"what"`
+	Fixed      bool   `json:"fixed,omitempty"`
+	Commit     string `json:"commit,omitempty"`
+}
+
+func loadKnownFindings(dir string) []KnownFinding {
+	b, err := os.ReadFile(filepath.Join(dir, "known_findings.jsonl"))
+	if err != nil {
+		return nil
+	}
+	var out []KnownFinding
+	for _, l := range strings.Split(string(b), "\n") {
+		l = strings.TrimSpace(l)
+		if l == "" || strings.HasPrefix(l, "#") {
+			continue
+		}
+		var k KnownFinding
+		if err := json.Unmarshal([]byte(l), &k); err == nil {
+			out = append(out, k)
+		}
+	}
+	return out
+}
+
+type checkResult struct {
+	obs      []*Obligation
+	covers   []*Obligation
+	genErrs  []string // generation failures (function -> error)
+	funcs    []string
+	asmNotes []string
+	bounded  []map[string]any
+}
+
+func cmdCheck(args []string) int {
+	fs := flag.NewFlagSet("check", flag.ExitOnError)
+	pid := fs.String("p", "", "property id")
+	tier := fs.String("tier", "", "quick|thorough")
+	fs.Parse(args)
+	if *tier == "" {
+		*tier = os.Getenv("VERIF_TIER")
+	}
+	if *tier == "" {
+		*tier = "quick"
+	}
+	seed := 0
+	if s := os.Getenv("VERIF_SEED"); s != "" {
+		seed, _ = strconv.Atoi(s)
+	}
+	def := propDefs()[*pid]
+	if def == nil {
+		fmt.Fprintf(os.Stderr, "no check for property %q\n", *pid)
+		return 2
+	}
+	t0 := time.Now()
+	vd := verifDir()
+	cfg := &SolverCfg{QuickTimeout: 5 * time.Second, FullTimeout: 30 * time.Second, CacheDir: filepath.Join(vd, ".cache"), NoCache: os.Getenv("VERIF_NOCACHE") == "1"}
+	if *tier == "thorough" {
+		cfg.Agree = true
+		cfg.FullTimeout = 120 * time.Second
+	}
+	res := runProp(def, cfg, *tier)
+	// classify
+	known := loadKnownFindings(vd)
+	type viol struct {
+		o      *Obligation
+		replay string
+		conf   bool
+	}
+	var viols []viol
+	var knownHit = map[int][]string{}
+	discharged, total := 0, 0
+	byBackend := map[string]int{}
+	solverTime := 0.0
+	cacheHits := 0
+	var undis []map[string]any
+	var knownObs []string
+	for _, o := range res.obs {
+		solverTime += o.TimeS
+		if o.Cached {
+			cacheHits++
+		}
+		if o.Result == "unsat" {
+			total++
+			discharged++
+			byBackend[o.Solver]++
+			continue
+		}
+		// not discharged: known finding?
+		matched := -1
+		for i, k := range known {
+			if k.Fixed || k.Property != def.ID {
+				continue
+			}
+			if ok, _ := regexp.MatchString(k.Obligation, o.Name); ok {
+				matched = i
+				break
+			}
+		}
+		if matched >= 0 {
+			knownHit[matched] = append(knownHit[matched], o.Name)
+			knownObs = append(knownObs, o.Name)
+			continue
+		}
+		total++
+		undis = append(undis, map[string]any{"name": o.Name, "result": o.Result, "solver": o.Solver, "pos": o.Pos, "note": o.Note})
+		viols = append(viols, viol{o: o})
+	}
+	// vacuity probes
+	vacRun, vacOK := 0, 0
+	broken := false
+	for _, c := range res.covers {
+		vacRun++
+		if c.Result == "sat" {
+			vacOK++
+		} else {
+			fmt.Printf("VACUITY: %s precondition not satisfiable (%s)\n", c.Name, c.Result)
+			broken = true
+		}
+	}
+	if total < def.Floor {
+		fmt.Printf("VACUITY: only %d obligations generated for %s (floor %d)\n", total, def.ID, def.Floor)
+		broken = true
+	}
+	// replay files and VIOLATION lines
+	rdir := filepath.Join(vd, "replays", def.ID)
+	os.MkdirAll(rdir, 0o755)
+	nviol := 0
+	for _, ge := range res.genErrs {
+		nviol++
+		name := "generation-" + strconv.Itoa(nviol)
+		path := filepath.Join(rdir, name+".json")
+		writeJSON(path, map[string]any{"property": def.ID, "obligation": "generation", "error": ge,
+			"explanation": "the obligations of a function under contract could not be generated from the current source (construct outside the verified subset, missing function or anchor); this fails closed"})
+		fmt.Printf("VIOLATION property=%s replay=%s obligation=generation %s no-failing-input-found\n", def.ID, path, oneLine(ge))
+	}
+	st := lastSymtab
+	for _, v := range viols {
+		nviol++
+		o := v.o
+		name := sanitize(o.Name)
+		if len(name) > 150 {
+			name = name[:150]
+		}
+		path := filepath.Join(rdir, name+".json")
+		smtPath := filepath.Join(rdir, name+".smt2")
+		if st != nil {
+			os.WriteFile(smtPath, []byte(o.Query(st)), 0o644)
+		}
+		rep := map[string]any{"property": def.ID, "obligation": o.Name, "function": o.Func, "kind": o.Kind, "position": o.Pos,
+			"clause": o.Note, "solver_result": o.Result, "solver": o.Solver, "solver_output": o.Stdout, "query": smtPath}
+		confirmed := false
+		if o.Result == "sat" && o.Model != "" {
+			rep["model"] = modelSummary(o.Model)
+			if rr := tryReplay(res, o); rr != nil {
+				rep["replay"] = rr
+				if c, _ := rr["confirmed"].(bool); c {
+					confirmed = true
+				}
+			}
+		}
+		writeJSON(path, rep)
+		suffix := ""
+		if !confirmed {
+			suffix = " no-failing-input-found"
+		}
+		fmt.Printf("VIOLATION property=%s replay=%s obligation=%s result=%s%s\n", def.ID, path, o.Name, o.Result, suffix)
+	}
+	var kidx []int
+	for i := range knownHit {
+		kidx = append(kidx, i)
+	}
+	sort.Ints(kidx)
+	for _, i := range kidx {
+		fmt.Printf("KNOWN-FINDING: property=%s %s (%d obligation instances: %s)\n", def.ID, known[i].What, len(knownHit[i]), strings.Join(uniqBase(knownHit[i]), ", "))
+	}
+	// evidence
+	samples := pickSamples(res.obs, st)
+	slow := slowest(res.obs, 5)
+	trusted := append([]string{}, def.Trusted...)
+	var ext []string
+	for e := range usedExternals {
+		ext = append(ext, e)
+	}
+	sort.Strings(ext)
+	for _, e := range ext {
+		trusted = append(trusted, "assumed contract (built-in model): "+e)
+	}
+	trusted = append(trusted, "go/ssa lowering (x/tools v0.50.0) of the Go source; govc VC generator and memory model; SMT solvers z3 4.8.12 / z3 5.1.0 / cvc5 1.0.3")
+	nn := func(v []string) []string {
+		if v == nil {
+			return []string{}
+		}
+		return v
+	}
+	if res.bounded == nil {
+		res.bounded = []map[string]any{}
+	}
+	if undis == nil {
+		undis = []map[string]any{}
+	}
+	ev := map[string]any{
+		"property_id": def.ID,
+		"tier":        *tier,
+		"seed":        seed,
+		"level":       "proof",
+		"coverage": map[string]any{
+			"obligations":               total,
+			"discharged":                discharged,
+			"checker_cmd":               fmt.Sprintf("bin/govc check -p %s -tier %s", def.ID, *tier),
+			"trusted_base":              trusted,
+			"functions_under_contract":  nn(res.funcs),
+			"by_backend":                byBackend,
+			"solver_time_s":             round2(solverTime),
+			"slowest":                   slow,
+			"cache_hits":                cacheHits,
+			"bounded":                   res.bounded,
+			"vacuity":                   map[string]any{"probes_run": vacRun, "probes_passed": vacOK, "obligation_floor": def.Floor},
+			"undischarged":              undis,
+			"known_finding_obligations": nn(knownObs),
+			"generation_errors":         nn(res.genErrs),
+			"samples":                   samples,
+			"asm":                       nn(res.asmNotes),
+		},
+		"assumptions": nn(def.Assumptions),
+		"wall_s":      round2(time.Since(t0).Seconds()),
+		"violations":  nviol,
+	}
+	os.MkdirAll(filepath.Join(vd, "evidence"), 0o755)
+	writeJSON(filepath.Join(vd, "evidence", def.ID+".json"), ev)
+	fmt.Printf("%s [%s]: %d/%d obligations discharged, %d known-finding instances, %d violations, %d generation errors, %.1fs\n", def.ID, *tier, discharged, total, len(knownObs), len(viols), len(res.genErrs), time.Since(t0).Seconds())
+	if broken {
+		fmt.Println("CHECK BROKEN: vacuity probe failed (this is a defect of the check, not a verdict)")
+		return 3
+	}
+	if nviol > 0 {
+		return 1
+	}
+	return 0
+}
+
+var lastSymtab *Symtab
+var lastProgram *Program
+
+func runProp(def *PropDef, cfg *SolverCfg, tier string) *checkResult {
+	res := &checkResult{}
+	progs := map[string]*Program{}
+	st := NewSymtab()
+	lastSymtab = st
+	for _, fc := range def.Funcs {
+		p := progs[fc.Goarch]
+		if p == nil {
+			var err error
+			p, err = loadAll(fc.Goarch)
+			if err != nil {
+				res.genErrs = append(res.genErrs, fmt.Sprintf("load (GOARCH=%q): %v", fc.Goarch, err))
+				return res
+			}
+			progs[fc.Goarch] = p
+			if fc.Goarch == "" {
+				lastProgram = p
+			}
+		}
+		obs, covers, err := verifyFunc(p, st, fc.Fn, fc.Layer, fc.Opts)
+		if err != nil {
+			res.genErrs = append(res.genErrs, fmt.Sprintf("%s: %v", fc.Fn, err))
+			continue
+		}
+		label := fc.Fn
+		if fc.Goarch != "" {
+			label += " [GOARCH=" + fc.Goarch + "]"
+		}
+		res.funcs = append(res.funcs, label)
+		inc := compileAll(fc.Include)
+		exc := compileAll(fc.Exclude)
+		for _, o := range obs {
+			if len(inc) > 0 && !matchAny(inc, o.Name) {
+				continue
+			}
+			if matchAny(exc, o.Name) {
+				continue
+			}
+			if fc.Goarch != "" {
+				o.Name = o.Name + "[" + fc.Goarch + "]"
+			}
+			res.obs = append(res.obs, o)
+		}
+		res.covers = append(res.covers, covers...)
+	}
+	if def.Asm {
+		aobs, notes, err := asmObligations(st, filepath.Join(repoDir(), "node16_amd64.s"))
+		if err != nil {
+			res.genErrs = append(res.genErrs, "node16_amd64.s: "+err.Error())
+		}
+		res.obs = append(res.obs, aobs...)
+		res.asmNotes = notes
+		res.funcs = append(res.funcs, "searchNode16 [node16_amd64.s]", "insertPosNode16 [node16_amd64.s]")
+	}
+	all := append(append([]*Obligation{}, res.obs...), res.covers...)
+	DischargeAll(all, st, cfg, runtime.NumCPU())
+	return res
+}
+
+func compileAll(ps []string) []*regexp.Regexp {
+	var out []*regexp.Regexp
+	for _, p := range ps {
+		out = append(out, regexp.MustCompile(p))
+	}
+	return out
+}
+
+func matchAny(rs []*regexp.Regexp, s string) bool {
+	for _, r := range rs {
+		if r.MatchString(s) {
+			return true
+		}
+	}
+	return false
+}
+
+func writeJSON(path string, v any) {
+	b, _ := json.MarshalIndent(v, "", " ")
+	os.WriteFile(path, append(b, '\n'), 0o644)
+}
+
+func round2(f float64) float64 { return float64(int(f*100+0.5)) / 100 }
+
+func oneLine(s string) string {
+	s = strings.ReplaceAll(s, "\n", " ")
+	if len(s) > 200 {
+		s = s[:200]
+	}
+	return strings.ReplaceAll(s, " ", "_")
+}
+
+func uniqBase(names []string) []string {
+	seen := map[string]bool{}
+	var out []string
+	for _, n := range names {
+		if i := strings.Index(n, "~"); i >= 0 {
+			n = n[:i]
+		}
+		if !seen[n] {
+			seen[n] = true
+			out = append(out, n)
+		}
+	}
+	sort.Strings(out)
+	return out
+}
+
+func pickSamples(obs []*Obligation, st *Symtab) []map[string]any {
+	var out []map[string]any
+	step := len(obs)/3 + 1
+	for i := 0; i < len(obs) && len(out) < 3; i += step {
+		o := obs[i]
+		size := 0
+		if st != nil && o.Solver != "simplifier" {
+			size = len(o.Query(st))
+		}
+		out = append(out, map[string]any{"name": o.Name, "kind": o.Kind, "clause": o.Note, "pos": o.Pos, "smt_bytes": size, "answer": o.Result, "solver": o.Solver, "time_s": round2(o.TimeS)})
+	}
+	return out
+}
+
+func slowest(obs []*Obligation, n int) []map[string]any {
+	c := append([]*Obligation{}, obs...)
+	sort.Slice(c, func(i, j int) bool { return c[i].TimeS > c[j].TimeS })
+	var out []map[string]any
+	for i := 0; i < n && i < len(c); i++ {
+		out = append(out, map[string]any{"name": c[i].Name, "time_s": round2(c[i].TimeS), "solver": c[i].Solver})
+	}
+	return out
+}
+
+var defineFunRe = regexp.MustCompile(`\(define-fun\s+(\S+)\s+\(\)\s+(\([^)]*\)|\S+)\s+([^\n]+?)\)\s*$`)
+
+// modelSummary extracts the values of input symbols (p.*) from a solver model.
+func modelSummary(model string) map[string]string {
+	out := map[string]string{}
+	lines := strings.Split(model, "\n")
+	for i := 0; i < len(lines); i++ {
+		l := strings.TrimSpace(lines[i])
+		if !strings.HasPrefix(l, "(define-fun ") {
+			continue
+		}
+		// join a following value line
+		full := l
+		if i+1 < len(lines) && !strings.HasPrefix(strings.TrimSpace(lines[i+1]), "(define-fun") {
+			full = l + " " + strings.TrimSpace(lines[i+1])
+		}
+		if m := defineFunRe.FindStringSubmatch(full); m != nil {
+			if strings.HasPrefix(m[1], "p.") || strings.HasPrefix(m[1], "loop.") {
+				out[m[1]] = strings.TrimSpace(m[3])
+			}
+		}
+	}
+	return out
+}
